@@ -533,8 +533,12 @@ pub struct ParseFlag<T> {
 
 impl<T: Clone + 'static> Parser<T> for ParseFlag<T> {
     fn eval(&self, args: &mut State) -> Result<T, Error> {
-        if args.take_flag(&self.named) || self.named.env.iter().find_map(std::env::var_os).is_some()
-        {
+        let taken = args.take_flag(&self.named);
+        let from_env = !taken && self.named.env.iter().find_map(std::env::var_os).is_some();
+        if from_env {
+            args.env_used = true;
+        }
+        if taken || from_env {
             #[cfg(feature = "autocomplete")]
             if args.touching_last_remove() {
                 args.push_flag(&self.named);
@@ -663,6 +667,7 @@ impl<T> ParseArgument<T> {
                 args.push_argument(&self.named, self.metavar);
                 if let Some(val) = self.named.env.iter().find_map(std::env::var_os) {
                     args.current = None;
+                    args.env_used = true;
                     return Ok(val);
                 }
 
